@@ -12,7 +12,7 @@ REGENERATE_SRC = True
 RULE = ("uniform / weighted(supply|utilisation|allocation) composites over 0..8 (thorough 0..40) children "
         "with exact Fraction attributes (all-zero weights, one non-zero weight, equal weights, magnitudes "
         "10^±9), op histories of demand writes, child state changes, children added/removed; an extra "
-        "float stream is judged by the oracle only, with relative tolerance 1e-9; non-trivial = at least one "
+        "float stream is judged by the oracle only, with relative tolerance 1e-9; next to every composite a sibling of the same class is created empty and filled in place - the composite must hold exactly the pools it was given; non-trivial = at least one "
         "demand write to a composite with >= 2 children; distinct = distinct canonical case JSON")
 ASSUMPTIONS = ["floating-point rounding is not modelled: exact streams use Fractions; the float stream is checked up to 1e-9 relative",
                "child weights (supply, utilisation, allocation) are non-negative"]
